@@ -327,6 +327,113 @@ static void run_neg(long k, const unsigned char *msg)
   printf(" live=%ld\n", live_allocs - live0);
 }
 
+/* ---------------- allocation-failure sweep ---------------- */
+/* Every conversion-phase allocation of a legacy parser is made to fail in turn (the
+ * allocations of ares_dns_parse come first and are skipped): "<k> F <parser> v=<variant>
+ * at=<failing allocation, 0 = none> tot=<allocations of the conversion> st=<status>
+ * out=<result pointer set> live=<allocations still live after the matching free function>" */
+typedef struct { int st; int out; } fres_t;
+typedef fres_t (*fcall_t)(const unsigned char *msg, int len, int variant);
+
+static fres_t f_addr(const unsigned char *msg, int len, int variant)
+{
+  /* variant: 0 = a host only, 1 = a array only, 2 = aaaa host only, 3 = aaaa array only */
+  struct hostent      *host = NULL;
+  struct ares_addrttl  t4[4];
+  struct ares_addr6ttl t6[4];
+  int                  n = 4;
+  fres_t               r;
+  if (variant == 0) r.st = ares_parse_a_reply(msg, len, &host, NULL, NULL);
+  else if (variant == 1) r.st = ares_parse_a_reply(msg, len, NULL, t4, &n);
+  else if (variant == 2) r.st = ares_parse_aaaa_reply(msg, len, &host, NULL, NULL);
+  else r.st = ares_parse_aaaa_reply(msg, len, NULL, t6, &n);
+  r.out = host != NULL;
+  ares_free_hostent(host);
+  return r;
+}
+static fres_t f_ns(const unsigned char *msg, int len, int variant)
+{
+  struct hostent *host = NULL;
+  fres_t          r;
+  (void)variant;
+  r.st  = ares_parse_ns_reply(msg, len, &host);
+  r.out = host != NULL;
+  ares_free_hostent(host);
+  return r;
+}
+static fres_t f_ptr(const unsigned char *msg, int len, int variant)
+{
+  static const unsigned char a4[4] = { 1, 2, 3, 4 };
+  struct hostent *host = NULL;
+  fres_t          r;
+  r.st  = variant ? ares_parse_ptr_reply(msg, len, a4, 4, AF_INET, &host) : ares_parse_ptr_reply(msg, len, NULL, 0, AF_INET, &host);
+  r.out = host != NULL;
+  ares_free_hostent(host);
+  return r;
+}
+#define F_LIST(fn, call, type)                                    \
+  static fres_t fn(const unsigned char *msg, int len, int variant) \
+  {                                                                \
+    type  *out = NULL;                                             \
+    fres_t r;                                                      \
+    (void)variant;                                                 \
+    r.st  = call(msg, len, &out);                                  \
+    r.out = out != NULL;                                           \
+    ares_free_data(out);                                           \
+    return r;                                                      \
+  }
+F_LIST(f_mx, ares_parse_mx_reply, struct ares_mx_reply)
+F_LIST(f_srv, ares_parse_srv_reply, struct ares_srv_reply)
+F_LIST(f_naptr, ares_parse_naptr_reply, struct ares_naptr_reply)
+F_LIST(f_caa, ares_parse_caa_reply, struct ares_caa_reply)
+F_LIST(f_uri, ares_parse_uri_reply, struct ares_uri_reply)
+F_LIST(f_soa, ares_parse_soa_reply, struct ares_soa_reply)
+F_LIST(f_txt, ares_parse_txt_reply, struct ares_txt_reply)
+F_LIST(f_txtx, ares_parse_txt_reply_ext, struct ares_txt_ext)
+
+static void sweep(long k, const char *name, int variant, fcall_t f, const unsigned char *msg, int len, long nparse)
+{
+  long   tot, rel, live0;
+  fres_t r;
+  alloc_calls = 0; fail_at = 0; live0 = live_allocs;
+  r   = f(msg, len, variant);
+  tot = alloc_calls - nparse;
+  printf("%ld F %s v=%d at=0 tot=%ld st=%d out=%d live=%ld\n", k, name, variant, tot, r.st, r.out, live_allocs - live0);
+  for (rel = 1; rel <= tot; rel++) {
+    if (tot > 10 && !(rel <= 5 || rel == tot / 2 || rel >= tot - 3)) continue;
+    alloc_calls = 0; fail_at = nparse + rel; live0 = live_allocs;
+    r       = f(msg, len, variant);
+    fail_at = 0;
+    printf("%ld F %s v=%d at=%ld tot=%ld st=%d out=%d live=%ld\n", k, name, variant, rel, tot, r.st, r.out, live_allocs - live0);
+  }
+}
+
+static void sweep_all(long k, const unsigned char *msg, int len)
+{
+  ares_dns_record_t *rec = NULL;
+  long               nparse;
+  alloc_calls = 0; fail_at = 0;
+  if (ares_dns_parse(msg, (size_t)len, 0, &rec) != ARES_SUCCESS) return;
+  nparse = alloc_calls;
+  if (ares_dns_record_rr_cnt(rec, ARES_SECTION_ANSWER) > 24) { ares_dns_record_destroy(rec); return; }
+  ares_dns_record_destroy(rec);
+  sweep(k, "a", 0, f_addr, msg, len, nparse);
+  sweep(k, "a", 1, f_addr, msg, len, nparse);
+  sweep(k, "aaaa", 2, f_addr, msg, len, nparse);
+  sweep(k, "aaaa", 3, f_addr, msg, len, nparse);
+  sweep(k, "caa", 0, f_caa, msg, len, nparse);
+  sweep(k, "mx", 0, f_mx, msg, len, nparse);
+  sweep(k, "naptr", 0, f_naptr, msg, len, nparse);
+  sweep(k, "ns", 0, f_ns, msg, len, nparse);
+  sweep(k, "ptr", 0, f_ptr, msg, len, nparse);
+  sweep(k, "ptr", 1, f_ptr, msg, len, nparse);
+  sweep(k, "soa", 0, f_soa, msg, len, nparse);
+  sweep(k, "srv", 0, f_srv, msg, len, nparse);
+  sweep(k, "txt", 0, f_txt, msg, len, nparse);
+  sweep(k, "txtx", 0, f_txtx, msg, len, nparse);
+  sweep(k, "uri", 0, f_uri, msg, len, nparse);
+}
+
 /* ---------------- case ---------------- */
 static void run_case(long k, char *line)
 {
@@ -355,6 +462,7 @@ static void run_case(long k, char *line)
   run_txt_ext(k, msg, (int)len);
   run_uri(k, msg, (int)len);
   run_neg(k, msg);
+  sweep_all(k, msg, (int)len);
   free(msg);
 }
 
